@@ -196,7 +196,7 @@ class MemoryStorage(Storage):
             search_id (Hashable): The identifier of the job.
             key (Hashable): A key to use to access the value.
         """
-        return self._data[search_id]["values"][key]
+        return copy.deepcopy(self._data[search_id]["values"][key])
 
     @_synchronized
     def load_metadata_from_all_jobs(self, search_id: Hashable, key: Hashable) -> List[Any]:
@@ -214,7 +214,7 @@ class MemoryStorage(Storage):
         for job_data_i in self._data[search_id]["data"].values():
             value_i = job_data_i["metadata"].get(key, None)
             if value_i is not None:
-                values.append(value_i)
+                values.append(copy.deepcopy(value_i))
         return values
 
     @_synchronized
@@ -231,7 +231,7 @@ class MemoryStorage(Storage):
         for job_data_i in self._data[search_id]["data"].values():
             value_i = job_data_i["out"]
             if value_i is not None:
-                values.append(value_i)
+                values.append(copy.deepcopy(value_i))
         return values
 
     @_synchronized
@@ -248,7 +248,7 @@ class MemoryStorage(Storage):
         for job_id in job_ids:
             search_id, partial_id = job_id.split(".")
             job_data = self._data[search_id]["data"][partial_id]
-            data[job_id] = job_data
+            data[job_id] = copy.deepcopy(job_data)
         return data
 
     @_synchronized
